@@ -11,6 +11,16 @@ from the hand-written table in bounded/_eqpool.py; the code under test is
 NumSysLin / NumSysLog / NumSysSquare / NumSysLinRel (/ NumSysLinTanh when it can be evaluated at
 all), ``EqSystem.equilibrium_quotients`` and ``EqSystem.composition_conservation``.
 
+When the constants are passed as parameters (new_eq_params=True, the way EqSystem.root uses the
+formulations) the EqSystem itself is built with DECOY constants (K_i * (i+2)), so a formulation that
+reads the stored constants instead of the parameters is caught; with new_eq_params=False the stored
+constants are the true ones and no constant parameters are passed.  Only linearly independent reaction
+sets are generated (with dependent reactions the row-reduced equilibrium block has fewer than nr rows).
+NumSysLinTanh.f raises TypeError for every input on the pinned tree (its min_ callback takes two
+arguments, ReactionSystem.upper_conc_bounds passes one list); it is not among the formulations the
+statement lists, so a configuration whose f() cannot be evaluated at all is skipped for LinTanh only
+(and counted in "bound"); on a tree where it can be evaluated it is checked like the others.
+
 Internal variables are computed here: Lin y=c; Square y=+-sqrt(c) (sympy, exact); Log y=ln c (sympy,
 exact symbol; residuals that stay symbolic are evaluated with 40 digits); LinRel y=c/ub where ub_j =
 min over the elements of species j of (element total of c0)/(count); LinTanh y=atanh((8c/ub-4)/5).
